@@ -14,14 +14,24 @@ RULE = ("cases = (sample_depth in {1,2,5,32,100} (+3,4,7,8,16,33 thorough), samp
         "capture; inputs random every cycle or a counter; captured_sample_number sweeps and random reads, also while "
         "capturing (read of a location in the cycle it is written); kind 1 = StreamILA over the same depths / pre-trigger "
         "counts x trigger patterns (also during capture and read-out, where they are blocked) x stream.ready patterns "
-        "(always / 50% / 20% / long on-off bursts / 85%), several captures and read-outs per case")
+        "(always / 50% / 20% / long on-off bursts / 85%), several captures and read-outs per case; kind 2 = "
+        "SyncSerialILA, depths {1,2,3,5,16} (+4,7,8,32 thorough) x the four SPI modes: a scripted SPI controller "
+        "(random half periods 1-3 cycles) triggers, waits for the capture and reads depth-1 .. depth+2 words per "
+        "chip-select window, re-reads and re-captures; a quarter of the windows break the read-out conditions on "
+        "purpose (trigger during the read-out, chip select dropped in mid-word, short chip-select gap) and are "
+        "compared against the model only")
 ASSUMPTIONS = ["sample_depth >= 1", "captured_sample_number < sample_depth (addresses beyond a non-power-of-two depth are not driven)",
                "StreamILA: o_domain == domain (no clock-domain-crossing FIFO between the read-out FSM and the stream)",
+               "SyncSerialILA monitor (judged chip-select windows): no capture running and no trigger from 2 cycles before "
+               "chip select rises until it falls, chip select low for the 4 cycles before, SPI clock idle at the level "
+               "that makes the first edge the device's output edge, SCK high/low >= 1 cycle each",
                "stream_readout_exact: the trigger is seen in a wrapper-idle state (WIdle: holds at reset, is kept by idle "
                "cycles and re-established by every read-out: init_WIdle, idle_step, stream_readout_returns_idle)"]
 PARTIAL = ("the IntegratedLogicAnalyzer core and the StreamILA read-out (same clock domain) are modelled and proved; "
-           "SyncSerialILA (SPI read-out), AsyncSerialILA (UART read-out) and StreamILA's optional AsyncFIFO to another "
-           "o_domain are not covered")
+           "SyncSerialILA (SPI read-out) is modelled (composition of the core model with C50's SPIDeviceInterface "
+           "model), co-simulated and monitored (words read by an SPI controller = recorded samples in order) but its "
+           "read-out theorem is not proved; AsyncSerialILA (UART read-out) and StreamILA's optional AsyncFIFO to "
+           "another o_domain are not covered")
 
 WIDTHS = [1, 8, 5]
 TOTAL = sum(WIDTHS)
@@ -44,6 +54,15 @@ def gen_cases(tier, rng):
             for _ in range(sper):
                 out.append({"kind": 1, "depth": D, "pre": p, "domain": "usb" if k % 5 == 4 else "sync",
                             "seed": rng.u64(), "k": k})
+                k += 1
+    # SyncSerialILA (kind 2): SPI read-out, all four SPI modes
+    sdepths = [1, 2, 3, 5, 16] if tier != "thorough" else [1, 2, 3, 4, 5, 7, 8, 16, 32]
+    pper = {"quick": 1, "widen": 2, "thorough": 3}[tier]
+    for D in sdepths:
+        for mode in range(4):
+            for _ in range(pper):
+                out.append({"kind": 2, "depth": D, "pre": k % 4, "pol": mode >> 1, "phase": mode & 1,
+                            "domain": "usb" if k % 5 == 4 else "sync", "seed": rng.u64(), "k": k})
                 k += 1
     return out
 
@@ -134,6 +153,8 @@ def monitor(D, p, stim, rows):
 def run_case(desc):
     if desc.get("kind", 0) == 1:
         return run_stream_case(desc)
+    if desc.get("kind", 0) == 2:
+        return run_spi_case(desc)
     from amaranth import Signal
     from luna.gateware.debug.ila import IntegratedLogicAnalyzer
     D, p, dom = desc["depth"], desc["pre"], desc.get("domain", "sync")
@@ -308,3 +329,185 @@ def run_stream_case(desc):
             "s-partial-readout-at-end" if 0 < stats["max_sent"] and stats["captures"] > stats["readouts"] else "s-clean-end"]
     return Case([1, D, p], stim, rows, fails, tags, desc, ["trigger", "inputs", "stream.ready"],
                 ["sampling", "complete", "stream.valid", "stream.payload", "stream.first", "stream.last"])
+
+
+# ---------------------------------------------------------------------------------------------------------------
+# SyncSerialILA: the captured samples read back over SPI
+# ---------------------------------------------------------------------------------------------------------------
+
+def make_spi_stimulus(D, p, pol, phase, rng, k):
+    """A scripted SPI controller: trigger, wait for the capture, read N words of 32 bits in one chip-select window
+    (clock idle such that the first edge is the device's output edge), optionally re-read / re-capture.  Some cases
+    break the environment assumptions on purpose (trigger during the read-out, chip select dropped in mid-word,
+    short chip-select gap): the monitor recognises those windows from the trace and does not judge them."""
+    sample_level = pol if phase else 1 - pol       # sck level after a sample edge = clock idle level for the controller
+    rows = []
+    st = {"sck": sample_level, "cs": 0}
+    imode = k % 2
+
+    def emit(n=1, trig=0, noise=False):
+        for _ in range(n):
+            t = len(rows)
+            inputs = rng.bits(TOTAL) if imode == 0 else ((t * 37 + 5) & ((1 << TOTAL) - 1))
+            tr = trig or (1 if noise and rng.chance(15) else 0)
+            rows.append([tr, inputs, st["sck"], rng.bits(1), st["cs"]])
+
+    def capture(noisy):
+        n = rng.range(1, min(3, D + 1))
+        emit(n, trig=1)                                     # trigger (possibly held); capture = the next D cycles
+        emit(D + 1 - n, noise=noisy)                        # stray triggers are ignored while sampling
+        emit(2 + rng.range(0, 3))                           # complete is up; the first sample reaches the SPI register
+
+    def window(nwords, hmax, dirty):
+        st["cs"] = 1
+        emit(rng.range(0, 3))
+        nbits = nwords * 32
+        abort_at = rng.range(1, nbits - 1) if dirty == "abort" else None
+        trig_at = rng.range(0, nbits - 1) if dirty == "trigger" else None
+        for b in range(nbits):
+            if abort_at == b:
+                break
+            st["sck"] = 1 - sample_level                    # output edge
+            emit(rng.range(1, hmax), trig=int(trig_at == b))
+            st["sck"] = sample_level                        # sample edge
+            emit(rng.range(1, hmax))
+        emit(rng.range(0, 2))
+        st["cs"] = 0
+
+    emit(rng.range(2, 6))
+    rounds = 1 if D >= 16 else rng.range(1, 3)
+    for r in range(rounds):
+        capture(noisy=rng.chance(50))
+        nwin = 1 if D >= 16 else rng.range(1, 2)
+        for w in range(nwin):
+            dirty = None
+            if rng.chance(25):
+                dirty = rng.choice(["abort", "trigger", "shortgap"])
+            nwords = rng.choice([D, D, D + 1, D + 2, max(1, D - 1), max(1, D // 2)])
+            window(nwords, 1 if rng.chance(60) else rng.range(1, 3), dirty)
+            emit(rng.range(1, 3) if dirty == "shortgap" else rng.range(4, 8))
+            if dirty == "trigger":
+                emit(D + 6)
+    emit(4)
+    return rows
+
+
+def monitor_spi(D, p, pol, phase, stim, rows):
+    """The property on the real SyncSerialILA trace, seen from the SPI controller: in every chip-select window that
+    satisfies the read-out conditions (below), the 32-bit words shifted out MSB first (sdo sampled in the cycle the
+    controller drives its sampling clock edge) are the recorded samples 0, 1, 2, ... in order, for as many complete
+    words as were clocked, up to `depth`.
+
+    Conditions for a judged window (computed from the trace alone): the analyzer is idle and untouched (no capture
+    running, no trigger) from 2 cycles before chip select rises (the capture completed >= 2 cycles before) until
+    chip select falls; chip select was low for the 4 cycles before; the clock idles at the level that makes the
+    first edge an output edge."""
+    fails = []
+
+    def fail(t, sig, what):
+        fails.append({"cycle": t, "sig": sig, "what": "SyncSerialILA depth=%d pretrigger=%d mode=(%d,%d) cycle %d: %s"
+                      % (D, p, pol, phase, t, what)})
+
+    sample_level = pol if phase else 1 - pol
+    L = len(stim)
+    # pass 1: the analyzer's capture windows / memory contents over time + sampling / complete outputs
+    mem = [0] * D
+    start, complete = None, 0
+    disturbed = [False] * L       # cycle t: a capture is running or a trigger is applied
+    mem_at = [None] * L           # snapshot id of the memory (list) valid during cycle t
+    cur = list(mem)
+    captures = 0
+    for t in range(L):
+        trig = stim[t][0] & 1
+        busy = start is not None and start <= t < start + D
+        if rows[t][0] != int(busy):
+            fail(t, "spi-sampling-window", "sampling=%d requires %d" % (rows[t][0], int(busy)))
+            return fails, {}
+        if rows[t][1] != complete:
+            fail(t, "spi-complete-flag", "complete=%d requires %d" % (rows[t][1], complete))
+            return fails, {}
+        disturbed[t] = busy or bool(trig)
+        mem_at[t] = cur
+        delayed = stim[t - p][1] if t - p >= 0 else 0
+        if busy:
+            cur = list(cur)
+            cur[t - start] = delayed
+            if t - start == D - 1:
+                complete = 1
+        elif trig:
+            start, complete = t + 1, 0
+            captures += 1
+    # pass 2: chip-select windows
+    stats = {"windows": 0, "judged": 0, "skipped": 0, "words": 0, "full": 0, "captures": captures, "over": 0}
+    t = 0
+    while t < L:
+        if stim[t][4] and (t == 0 or not stim[t - 1][4]):
+            rise = t
+            fall = rise
+            while fall < L and stim[fall][4]:
+                fall += 1
+            stats["windows"] += 1
+            ok = rise >= 4 and fall < L
+            ok = ok and not any(stim[u][4] for u in range(rise - 4, rise))
+            ok = ok and not any(disturbed[u] for u in range(max(0, rise - 2), fall))
+            ok = ok and stim[rise][2] == sample_level and stim[rise - 1][2] == sample_level
+            ok = ok and captures > 0 and rows[rise][1] == 1
+            if not ok:
+                stats["skipped"] += 1
+            else:
+                stats["judged"] += 1
+                expected = mem_at[rise]
+                bits = []
+                for u in range(rise + 1, fall):
+                    if stim[u][2] == sample_level and stim[u - 1][2] != sample_level:
+                        bits.append((u, rows[u][2]))
+                nwords = len(bits) // 32
+                if nwords > D:
+                    stats["over"] += 1
+                for wi in range(min(nwords, D)):
+                    chunk = bits[32 * wi:32 * wi + 32]
+                    val = 0
+                    for (_u, b) in chunk:
+                        val = (val << 1) | b
+                    if val != expected[wi]:
+                        fail(chunk[-1][0], "spi-word", "word %d read over SPI is %#x, the recorded sample %d is %#x"
+                             % (wi, val, wi, expected[wi]))
+                        return fails, stats
+                    stats["words"] += 1
+                if nwords >= D:
+                    stats["full"] += 1
+            t = fall
+        else:
+            t += 1
+    return fails, stats
+
+
+def run_spi_case(desc):
+    from amaranth import Signal
+    from luna.gateware.debug.ila import SyncSerialILA
+    D, p, dom = desc["depth"], desc["pre"], desc.get("domain", "sync")
+    pol, phase = desc["pol"], desc["phase"]
+    sigs = [Signal(w, name="probe%d" % j) for j, w in enumerate(WIDTHS)]
+    dut = SyncSerialILA(signals=sigs, sample_depth=D, samples_pretrigger=p, domain=dom, clock_polarity=pol,
+                        clock_phase=phase)
+    stim = desc.get("stimulus") or make_spi_stimulus(D, p, pol, phase, Rng(desc["seed"]), desc.get("k", 0))
+    stim = [[r[0] & 1, r[1] & ((1 << TOTAL) - 1), r[2] & 1, r[3] & 1, r[4] & 1] for r in stim]
+    sim_rows = []
+    for r in stim:
+        v, fields = r[1], []
+        for w in WIDTHS:
+            fields.append(v & ((1 << w) - 1))
+            v >>= w
+        sim_rows.append([r[0]] + fields + [r[2], r[3], r[4]])
+    spi = dut.spi
+    rows = sim.run_cycles(dut, [dut.trigger] + sigs + [spi.sck, spi.sdi, spi.cs],
+                          [dut.sampling, dut.complete, spi.sdo], sim_rows, domain=dom)
+    fails, stats = monitor_spi(D, p, pol, phase, stim, rows)
+    tags = ["kind=spi", "p-depth=%d" % D, "p-mode=%d%d" % (pol, phase), "p-domain=" + dom]
+    if stats:
+        tags += ["p-judged-window" if stats["judged"] else "p-no-judged-window",
+                 "p-skipped-window" if stats["skipped"] else "p-no-skipped-window",
+                 "p-full-readout" if stats["full"] else "p-no-full-readout",
+                 "p-read-past-depth" if stats["over"] else "p-not-past-depth"]
+    return Case([2, D, p, dut.bits_per_word, pol, phase], stim, rows, fails, tags, desc,
+                ["trigger", "inputs", "spi.sck", "spi.sdi", "spi.cs"], ["sampling", "complete", "spi.sdo"])
